@@ -514,7 +514,9 @@ uint8_t* DNS::update_dname(uint8_t* ptr, uint32_t threshold, uint32_t offset) {
             uint16_t index;
             memcpy(&index, ptr, sizeof(uint16_t));
             index = Endian::be_to_host(index) & 0x3fff;
-            if (index > threshold) {
+            // index is relative to the start of the DNS header, threshold is
+            // relative to the start of the records
+            if (index >= threshold + sizeof(dns_header)) {
                 index = Endian::host_to_be<uint16_t>((index + offset) | 0xc000);
                 memcpy(ptr, &index, sizeof(uint16_t));
             }
